@@ -249,6 +249,13 @@ class Index(_Gap):
     def copy(self):
         return Index(self.labels, self.present, self.name, self.dtype)
 
+    def __getitem__(self, key):
+        if isinstance(key, (Series, BoolArray)) and not isinstance(self, MultiIndex):  # boolean mask
+            kp = key.present if isinstance(key, Series) else [T] * len(key.vals)
+            newp = [z3.And(p, q, m) for p, q, m in zip(self.present, kp, key.vals)]
+            return Index(self.labels, newp, self.name, self.dtype)
+        raise ModelGap("Index.__getitem__")
+
     def with_present(self, present):
         return Index(self.labels, present, self.name, self.dtype)
 
@@ -663,6 +670,18 @@ class _SLoc:
     def __getitem__(self, key):
         if isinstance(key, (BoolArray, Series)):
             return self.s[key]
+        if isinstance(key, Index) and not isinstance(key, MultiIndex) and not isinstance(self.s.index, MultiIndex):
+            # selection by a list of labels: for every requested label (in order) every row carrying it — a repeated label brings
+            # all its rows, once per request
+            s = self.s
+            vals, nulls, pres, labs = [], [], [], []
+            for k, (lk, pk) in enumerate(zip(key.labels, key.present)):
+                for r in range(len(s.vals)):
+                    vals.append(s.vals[r])
+                    nulls.append(s.nulls[r])
+                    pres.append(z3.And(pk, s.present[r], s.index.labels[r] == lk))
+                    labs.append(lk)
+            return Series(vals, nulls, pres, index=Index(labs, pres, s.index.name, s.index.dtype), name=s.name, dtype=s.dtype, kind=s.kind)
         raise ModelGap("Series.loc[non-mask]")
 
 
